@@ -108,8 +108,10 @@ def build(variant, extra_defs=""):
     # drop stale builds of the same variant (disk is limited), keeping the few most recent ones: checks of
     # different trees (e.g. a scratch worktree via VERIF_REPO) may run at the same time
     olds = sorted([d for d in glob.glob(os.path.join(BUILD, variant + "-*")) if ".tmp" not in d], key=os.path.getmtime)
-    for old in olds[:-5]:
-        shutil.rmtree(old, ignore_errors=True)
+    for old in olds[:-8]:
+        # never a build that may still be in use by a check running against another tree at the same time
+        if time.time() - os.path.getmtime(old) > 3 * 3600:
+            shutil.rmtree(old, ignore_errors=True)
     tmp = out + ".tmp%d" % os.getpid()
     shutil.rmtree(tmp, ignore_errors=True)
     os.makedirs(tmp)
